@@ -146,7 +146,12 @@ for events that HAVE the compared field; for an event lacking the field the engi
 negated operator on "absent" (only `!=` holds), Splunk would include the event: left to the engine. -/
 def evalFilterAux (e : Event) (neg : Bool) : Filter → Tri × Classes
   | .all => (.yes, [])
-  | .term w => (Tri.ofBool (termMatches w e), if neg then ["free-text-negation"] else [])
+  | .term w =>
+    -- a wildcard term that matches only an inner token of a value (`ba*` vs "foo bar"): the statement does
+    -- not say whether wildcards are anchored at the token or at the value; left to the engine
+    let whole := e.fields.any (fun (_, v) => glob w v.text)
+    let t := if termMatches w e then (if w.contains '*' && !whole then Tri.either else Tri.yes) else Tri.no
+    (t, if neg then ["free-text-negation"] else [])
   | .cmp f op l =>
     match e.get f with
     | none => if neg then (.either, []) else evalCmp none op l
